@@ -364,6 +364,7 @@ func (e *env) Stream(md protoreflect.MethodDescriptor, ss grpc.ServerStream) (re
 
 	// receive phase
 	var recvErr error
+	var echoErr error
 	if md.IsStreamingClient() {
 		n := 0
 		for {
@@ -389,10 +390,10 @@ func (e *env) Stream(md protoreflect.MethodDescriptor, ss grpc.ServerStream) (re
 				if err != nil {
 					return err
 				}
-				if md.Input().FullName() == md.Output().FullName() {
-					if err := send(b); err != nil {
-						return err
-					}
+				if md.Input().FullName() == md.Output().FullName() && echoErr == nil {
+					// after a failed send (client gone) keep receiving so
+					// that the terminal event of the stream is observed
+					echoErr = send(b)
 				}
 			}
 			if sc.StopAfter > 0 && n >= sc.StopAfter {
@@ -422,6 +423,9 @@ func (e *env) Stream(md protoreflect.MethodDescriptor, ss grpc.ServerStream) (re
 	}
 	if recvErr != errStopped && !cleanEnd(recvErr, websocket) {
 		return recvErr
+	}
+	if echoErr != nil {
+		return echoErr
 	}
 
 	// send phase
